@@ -493,6 +493,12 @@ def random_case(rnd, cal, tag, thorough):
 
 # ------------------------------------------------------------------------------------------------
 
+class CalibrationBroken(Exception):
+    def __init__(self, inv, diag, case):
+        Exception.__init__(self, diag)
+        self.inv, self.diag, self.case = inv, diag, case
+
+
 def calibrate(bindir):
     e1 = dict(STD, message=[["calibration-one", 1]])
     e2 = dict(STD, message=[["calibration-two-", 1], ["x", 40]])
@@ -501,9 +507,15 @@ def calibrate(bindir):
     res, outs, d, _ = run_driver("c18_cal", [case], bindir)
     r = res[0]
     out = r["_out"]
-    if not r["posts"] or r["reason"] == "wall-limit":     # anything else is judged on the cases, not here
-        raise util.ToolError("calibration run: unexpected result %s" % json.dumps(r)[:500])
+    if r["reason"] in ("panic", "wall-limit", "post-limit") or not r["posts"]:
+        # two short plain-ASCII events and a host that answers 200: not noise, the reader itself failed
+        raise CalibrationBroken("P_Terminates" if r["posts"] or r["reason"] != "pass-complete" else "P_NotBlocked",
+                                "benign input: reader ended with reason=%s, %d POST(s), files left: %s"
+                                % (r["reason"], len(r["posts"]), r["remaining"]), case)
     body = open(os.path.join(out, r["posts"][0]["file"]), "rb").read()
+    ok, diag, _evs = parse_document(body)
+    if not ok:
+        raise CalibrationBroken("P_WellFormed", "benign input: " + diag, case)
     envelope, elem, evs = learn_template(None, body)
     # the document lists events in pop order: e2 first
     by_msg = {e["Context1"]: (k, e) for k, e in enumerate(evs)}
@@ -674,7 +686,25 @@ def run(c):
     c.extra["generated_file_sets"] = len(keys)
 
     # 3. calibration (envelope, per-event overhead, document template) and concretisation
-    cal = calibrate(bindir)
+    try:
+        cal = calibrate(bindir)
+    except CalibrationBroken as first:
+        # the simplest possible input already breaks the property: re-execute once, then report; nothing else can
+        # be sized without a calibration document
+        try:
+            calibrate(bindir)
+            raise util.ToolError("calibration failed once (%s) and succeeded on re-execution" % first.diag)
+        except CalibrationBroken as again:
+            if again.inv != first.inv:
+                raise util.ToolError("calibration failed differently on re-execution: %s / %s" % (first.diag, again.diag))
+            c.violation("C18 broken on the real EventReader for a benign input (one file, two short ASCII events, "
+                        "host answers 200): %s: %s" % (again.inv, again.diag[:300]),
+                        {"broken": again.inv, "diag": again.diag.split(":")[1].strip() if ":" in again.diag else "",
+                         "trigger": "benign"}, {"case": again.case})
+            c.sample({"case": "calibration", "diag": again.diag[:300]})
+            c.rule = "calibration input only: the benign document already violates the property"
+            c.exhaustive = False
+            return
     c.extra["calibration"] = {"envelope_bytes": cal["envelope"], "event_overhead_bytes": cal["ov_base"]}
     cases = [concretise(rnd, b, cal, "g%d" % i) for i, b in enumerate(picked)]
     nrand = 300 if thorough else 36
@@ -751,7 +781,11 @@ def run(c):
     # the two scalar values XML 1.0 cannot carry (kept out of the seeded text so they cannot mask anything else)
     nc = noncharacter_cases(cal)
     nc_obs, _ = run_cases(c, nc, bindir, cal, "c18_nc")
-    nc_rej = judge(c, nc, nc_obs, "c18_nc")
+    nc_rej = []
+    for k in range(len(nc)):
+        ok_, why_, _ = validate_trace(c, "TelemetryTrace", "TelemetryTrace.cfg", nc_obs[k]["rows"], "c18_nc%d" % k, count=1)
+        if not ok_:
+            nc_rej.append((k, why_))
     c.extra["noncharacter_probe"] = {x["meta"]["trigger"]: (o["diags"][0] if o["diags"] else "document parses, text intact")
                                      for x, o in zip(nc, nc_obs)}
     for n, (k, why) in enumerate(nc_rej[:1]):
